@@ -76,10 +76,11 @@ def gen_shape(rng, kind=None, rectilinear=False):
     kinds = ['rect', 'rect', 'lshape', 'hole', 'multi', 'all', 'far'] + ([] if rectilinear else ['tri', 'quad', 'tri'])
     kind = kind or rng.choice(kinds)
     if kind == 'all':
-        polys = [[rect_ring(-0.5, -0.5, 1.5, 1.5), []]]
+        j = rng.randrange(0, 8) / 16.0
+        polys = [[rect_ring(-0.5 - j, -0.5, 1.5 + j, 1.5 + rng.randrange(0, 8) / 16.0), []]]
     elif kind == 'far':
         x0, y0 = rng.choice([(1.5, 1.5), (-2.0, 0.25), (0.25, 1.75), (1.25, -1.5)])
-        polys = [[rect_ring(x0, y0, x0 + 0.75, y0 + 0.75), []]]
+        polys = [[rect_ring(x0, y0, x0 + 0.5 + rng.randrange(0, 8) / 16.0, y0 + 0.75), []]]
     elif kind == 'rect':
         x0, y0 = q(-0.25, 0.6), q(-0.25, 0.6)
         x1, y1 = x0 + q(0.25, 0.9), y0 + q(0.25, 0.9)
@@ -201,6 +202,11 @@ def materialise(shape, form, srs_code, q_srs, q_bbox):
     return {'srs': srs_code, 'geometry': geom}
 
 
+def shape_bounds(shape):
+    pts = [p for ext, _h in shape['polys'] for p in ext]
+    return (min(p[0] for p in pts), min(p[1] for p in pts), max(p[0] for p in pts), max(p[1] for p in pts))
+
+
 def is_rectilinear(shape):
     return shape['kind'] in ('rect', 'lshape', 'hole', 'multi', 'all', 'far')
 
@@ -253,9 +259,18 @@ def gen_callback(rng, names, focus=None, want_geom=True):
     geoms = {}
     gid = [0]
 
+    def bounds(g):
+        pts = [p for ext, _h in g['shape']['polys'] for p in ext]
+        return (min(p[0] for p in pts), min(p[1] for p in pts), max(p[0] for p in pts), max(p[1] for p in pts))
+
     def new_geom(kindsel=None):
+        # geometries of one result have distinct bounding boxes (the harness recognises coverage objects by them)
         gid[0] += 1
-        geoms[str(gid[0])] = gen_geom(rng, kind=kindsel)
+        for _try in range(50):
+            g = gen_geom(rng, kind=kindsel)
+            if all(bounds(g) != bounds(o) for o in geoms.values()):
+                break
+        geoms[str(gid[0])] = g
         return gid[0]
     pool = list(names)
     for n in pool:
@@ -498,6 +513,29 @@ MERGE_CHECK = ("fun c => let '(o, ms, cols, g, obs) := c in "
                "list_eqb px_eqb (map (to_rgba (fst r)) (snd r)) (snd obs) && imode_eqb (fst r) (fst obs)")
 
 
+def corr(ctx, name, imports, case_type, cases, checker, describe, shard=400, defs=''):
+    """ctx.corr_check with one retry when Coq could not evaluate the cases (transient coqc failure on a loaded
+    machine); disagreements are registered exactly as corr_check does."""
+    import time
+    from common import Broken
+    bad = None
+    for attempt in (0, 1):
+        try:
+            bad = ctx.coq_bad(name, imports, case_type, cases, checker, shard=shard, defs=defs)
+            break
+        except Broken as e:
+            if attempt == 1 or not ctx.coq_ok:
+                ctx.problem('correspondence', 'correspondence %s could not be evaluated' % name, str(e))
+                return None
+            time.sleep(2)
+    for i in bad[:20]:
+        ctx.problem('correspondence', 'model and implementation disagree in %s (case %d)' % (name, i),
+                    {'case': describe(i), 'gallina': cases[i][:2000]})
+    if len(bad) > 20:
+        ctx.problem('correspondence', '%d further disagreements in %s' % (len(bad) - 20, name))
+    return bad
+
+
 def stream_merge(ctx, corpus):
     rng = ctx.rng
     terms, descr = [], []
@@ -509,7 +547,7 @@ def stream_merge(ctx, corpus):
             run_merge_case(ctx, case, terms, descr)
         except Exception as e:  # noqa
             ctx.problem('harness', 'merge case could not be run: %r' % (e,), case)
-    ctx.corr_check('merge', 'Auth', MERGE_TYPE, terms, MERGE_CHECK, lambda i: descr[i], shard=60)
+    corr(ctx, 'merge', 'Auth', MERGE_TYPE, terms, MERGE_CHECK, lambda i: descr[i], shard=60)
 
 
 # ----------------------------------------------------------------------------------------------- stream app
@@ -752,8 +790,12 @@ def gen_requests(rng, cfg, nreq):
             # tile shapes: decisive relation to the tile
             for g in req['cb']['geoms'].values():
                 if rng.random() < 0.5:
-                    g['shape'] = gen_shape(rng, kind=rng.choice(['all', 'far', 'rect', 'lshape']),
-                                           rectilinear=g['srs'] is not None)
+                    for _try in range(50):
+                        sh = gen_shape(rng, kind=rng.choice(['all', 'far', 'rect', 'lshape']),
+                                       rectilinear=g['srs'] is not None)
+                        if all(shape_bounds(sh) != shape_bounds(o['shape']) for o in req['cb']['geoms'].values()):
+                            break
+                    g['shape'] = sh
                     if g['form'] == 'bbox' and g['shape']['kind'] not in ('rect', 'all', 'far'):
                         g['form'] = 'wkt'
         reqs.append(req)
@@ -889,7 +931,7 @@ def run_app_config(ctx, cfg, reqs, out):
                 resp, status = None, -1
                 ctx.count('app.exception.' + type(e).__name__)
             if status >= 500:
-                ctx.count('app.500:' + (resp.text[-160:] if resp is not None else ''))
+                ctx.count('app.status500.' + ('not-queryable' if (resp is not None and 'not queryable' in resp.text) else 'other'))
             handle_response(ctx, cfg, req, cb, resp, status, rec, up, tree, names, extents, out,
                             layer_src_ids, fi_src, cfg_names)
     finally:
@@ -1015,6 +1057,13 @@ def handle_map(ctx, cfg, req, cb, resp, status, rec, up_map, tree, names, extent
         es, eb = extents[0]
         if es != q_srs or any(abs(a - b) > 1e-6 * max(1.0, abs(b)) for a, b in zip(eb, q_bbox)):
             ctx.fail('map,wrong-query-extent', 'callback got query_extent %r for request %r %r' % (extents[0], q_srs, q_bbox), rep)
+    # oracle: an explicitly requested layer that is part of the answer and is denied => 403 (or 401)
+    if cb is not None and cbarg is not None and cb['kind'] not in ('full', 'unauthenticated'):
+        expl = [n for n in cbarg if n in req['layers'] and not permitted_py(cb, 'map', n)]
+        if expl and status != 403:
+            ctx.fail('map,explicit-denied-not-403', 'layers %r are requested explicitly and denied, status is %d' % (expl, status), rep)
+        if not expl and status == 403:
+            ctx.fail('map,403-without-explicit-denied-layer', 'status 403 although every denied layer is implicit', rep)
     out['map_terms'].append('(%s, %s, %s, %s, %s, %s)' % (
         tree, llit([names(n) for n in req['layers']]), cb_lit(cb, names), obs,
         olit(None if cbarg is None else [names(n) for n in cbarg], llit), llit(up_map)))
@@ -1187,7 +1236,7 @@ def handle_tile(ctx, cfg, req, cb, resp, status, rec, up_map, up_fi, names, exte
             lim_ids = [v for v in (cb['layers'].get(req['layer'], {}).get('limited_to'), cb['limited_to']) if v is not None]
             if any(cls[g] == 'out' for g in lim_ids) and (up_fi or body.strip()):
                 own = cb['layers'].get(req['layer'], {}).get('limited_to')
-                known = own is not None and cls[own] == 'in'
+                known = own is not None and cls[own] != 'out'
                 ctx.fail(SIG_TILE_GLOBAL if known else 'wmts-fi,answer-outside-geometry',
                          'feature info %r for a point outside the permitted geometry' % (body[:60],), rep)
         out['tfi_terms'].append('(%s, %s, %s, %s, (%s))' % (zlit(lname), infos, cb_lit(cb, names),
@@ -1233,7 +1282,7 @@ def handle_tile(ctx, cfg, req, cb, resp, status, rec, up_map, up_fi, names, exte
                 cls = dict((g, shape_class(geoms[str(g)]['shape'], rx, ry, 64, 64, 1.0)) for g in lim_ids)
                 got = rgba.getpixel((x, y))
                 if any(c == 'out' for c in cls.values()) and got[3] != 0:
-                    known = own is not None and cls[own] == 'in'
+                    known = own is not None and cls[own] != 'out'
                     ctx.fail(SIG_TILE_GLOBAL if known else 'tile,clip-leak',
                              '%s tile %r of %s: pixel (%d,%d) lies outside the permitted geometry but is %r'
                              % (svc, req['tile'], req['layer'], x, y, got), rep)
@@ -1311,12 +1360,12 @@ def stream_app(ctx, corpus):
         cfg = gen_config(rng)
         reqs = gen_requests(rng, cfg, nreq)
         run_app_config(ctx, cfg, reqs, out)
-    ctx.corr_check('wms_map', 'Auth', MAP_TYPE, out['map_terms'], MAP_CHECK, lambda i: out['map_descr'][i], shard=150, defs=APP_DEFS)
-    ctx.corr_check('wms_featureinfo', 'Auth', FI_TYPE, out['fi_terms'], FI_CHECK, lambda i: out['fi_descr'][i], shard=150, defs=APP_DEFS)
-    ctx.corr_check('tile_render', 'Auth', TILE_TYPE, out['tile_terms'], TILE_CHECK, lambda i: out['tile_descr'][i], shard=200, defs=APP_DEFS)
-    ctx.corr_check('wmts_featureinfo', 'Auth', TFI_TYPE, out['tfi_terms'], TFI_CHECK, lambda i: out['tfi_descr'][i], shard=200, defs=APP_DEFS)
-    ctx.corr_check('map_pixels', 'Auth', PX_TYPE, out['px_terms'], PX_CHECK, lambda i: out['px_descr'][i], shard=400, defs=APP_DEFS)
-    ctx.corr_check('tile_pixels', 'Auth', TPX_TYPE, out['tpx_terms'], TPX_CHECK, lambda i: out['tpx_descr'][i], shard=400, defs=APP_DEFS)
+    corr(ctx, 'wms_map', 'Auth', MAP_TYPE, out['map_terms'], MAP_CHECK, lambda i: out['map_descr'][i], shard=150, defs=APP_DEFS)
+    corr(ctx, 'wms_featureinfo', 'Auth', FI_TYPE, out['fi_terms'], FI_CHECK, lambda i: out['fi_descr'][i], shard=150, defs=APP_DEFS)
+    corr(ctx, 'tile_render', 'Auth', TILE_TYPE, out['tile_terms'], TILE_CHECK, lambda i: out['tile_descr'][i], shard=200, defs=APP_DEFS)
+    corr(ctx, 'wmts_featureinfo', 'Auth', TFI_TYPE, out['tfi_terms'], TFI_CHECK, lambda i: out['tfi_descr'][i], shard=200, defs=APP_DEFS)
+    corr(ctx, 'map_pixels', 'Auth', PX_TYPE, out['px_terms'], PX_CHECK, lambda i: out['px_descr'][i], shard=400, defs=APP_DEFS)
+    corr(ctx, 'tile_pixels', 'Auth', TPX_TYPE, out['tpx_terms'], TPX_CHECK, lambda i: out['tpx_descr'][i], shard=400, defs=APP_DEFS)
 
 
 def load_corpus():
